@@ -544,7 +544,8 @@ func parseRateLimit(rateLimit string) (rateCount int, rateWindow time.Duration, 
 		return
 	}
 	win := parts[1]
-	if len(win) > 0 && (win[0] < '0' || win[0] > '9') {
+	// a bare time unit means one of it, e.g. "s" is "1s"
+	if len(win) > 0 && win[0] != '.' && (win[0] < '0' || win[0] > '9') {
 		win = "1" + win
 	}
 	if rateWindow, err = time.ParseDuration(win); err != nil || rateWindow < 0 {
